@@ -262,7 +262,9 @@ def apply(eng, rule: Rule, fr, topology, enter, leave, root):
                 args = PList.fresh(kind, n=nkids(xz), name="kidvals")
                 get = lambda kz: Sym(sel(args.cols[0], kz), kind)
             v = vars_now()
-            eng.assume(z3.ForAll([k], z3.Implies(z3.And(0 <= k, k < nkids(xz)), _zb(rule.Ql(eng, v, kid(xz, k), get(k), ctx)))))
+            ql = rule.Ql(eng, v, kid(xz, k), get(k), ctx)
+            for part in ([f for _, f in ql] if isinstance(ql, (list, tuple)) else [ql]):  # one hypothesis per conjunct
+                eng.assume(z3.ForAll([k], z3.Implies(z3.And(0 <= k, k < nkids(xz)), _zb(part))))
             ret = eng.call(leave, [xs, args], {})
             if callable(kind):
                 eng.prove(f"{lab}/leave/returned-value-owns-its-mutable-parts", _zb(_owned(ret, mark)), "frame")
